@@ -441,6 +441,7 @@ Qed.
 
 Theorem pb_enqueue_spec : forall b size h w, pb_inv b -> 0 <= size ->
   exists b' res, pb_enqueue b size h w = Ok (b', res) /\
+    (res = None <-> exists b1, pb_make_room b size = Ok (b1, true)) /\
     match res with
     | None => b' = b
     | Some old => zlen old = size /\ pb_inv b' /\ pb_abs b' = pb_abs b ++ [(h, overlay w old)]
@@ -450,7 +451,7 @@ Proof.
   destruct (pb_make_room_spec Hinv Hsz) as (b1 & refused & Hmr & Hrt & Hrf).
   unfold pb_enqueue. rewrite Hmr. cbn [obind].
   destruct refused.
-  { exists b1, None. split; [reflexivity|]. apply Hrt; reflexivity. }
+  { exists b1, None. split; [reflexivity|]. split; [split; eauto|]. apply Hrt; reflexivity. }
   specialize (Hrf eq_refl). pose proof Hrf as Hroom.
   destruct Hrf as (Him1 & Hip1 & _ & _ & _ & _ & Hnf & Hreset & Hcw & _ & _).
   destruct (fwd_enqueue_one_write Him1 Hnf) as (meta2 & slot & oldm & mfr' & He1 & Hmfr & Hw1).
@@ -464,7 +465,10 @@ Proof.
   assert (Hzold : zlen old = size) by (apply zlen_firstn; lia).
   rewrite Hzold. rewrite Z.eqb_refl. cbn [negb].
   exists (mkPbuf (ring_ref_write meta2 slot (pm_packet size h)) payload2), (Some old).
-  split; [reflexivity|]. split; [exact Hzold|].
+  split; [reflexivity|].
+  split.
+  { split; [discriminate|]. intros (b1' & Hb1'). congruence. }
+  split; [exact Hzold|].
   eapply append_packet; eauto; try (rewrite zlen_overlay; exact Hzold); try lia.
   rewrite (cap_eq Hip2), (cap_eq Hip1), Hvp2. unfold qs_cap. cbn [q_q q_fr].
     rewrite zlen_app, zlen_overlay, Hzold, zlen_skipn by lia. fold (ring_abs (pb_payload b1)). lia.
@@ -472,6 +476,7 @@ Qed.
 Theorem pb_enqueue_with_infallible_spec : forall b max h (f : list Z -> list Z * Z),
   pb_inv b -> 0 <= max -> (forall buf, 0 <= snd (f buf)) ->
   (exists b' res, pb_enqueue_with_infallible b max h f = Ok (b', res) /\
+     (res = None <-> exists b1, pb_make_room b max = Ok (b1, true)) /\
      match res with
      | None => b' = b
      | Some (k, seen) =>
@@ -486,7 +491,7 @@ Proof.
   destruct (pb_make_room_spec Hinv Hmax) as (b1 & refused & Hmr & Hrt & Hrf).
   unfold pb_enqueue_with_infallible. rewrite Hmr. cbn [obind].
   destruct refused.
-  { left. exists b1, None. split; [reflexivity|]. apply Hrt; reflexivity. }
+  { left. exists b1, None. split; [reflexivity|]. split; [split; eauto|]. apply Hrt; reflexivity. }
   specialize (Hrf eq_refl). pose proof Hrf as Hroom.
   destruct Hrf as (Him1 & Hip1 & _ & _ & _ & _ & Hnf & Hreset & Hcw & _ & _).
   destruct (fwd_enqueue_one_write Him1 Hnf) as (meta2 & slot & oldm & mfr' & He1 & Hmfr & Hw1).
@@ -525,7 +530,10 @@ Proof.
   rewrite Hep. cbn [obind].
   specialize (Hw1 (pm_packet k h)). cbv zeta in Hw1. destruct Hw1 as (Him2 & Hvm2 & _).
   exists (mkPbuf (ring_ref_write meta2 slot (pm_packet k h)) payload2), (Some (k, buf)).
-  split; [reflexivity|]. split; [exact Hzbuf|]. split; [rewrite Ef; reflexivity|].
+  split; [reflexivity|].
+  split.
+  { split; [discriminate|]. intros (b1' & Hb1'). congruence. }
+  split; [exact Hzbuf|]. split; [rewrite Ef; reflexivity|].
   set (nw0 := overlay new buf ++ skipn (Z.to_nat max) old) in *.
   assert (Hznw0 : zlen nw0 = m).
   { unfold nw0. rewrite zlen_app, zlen_overlay, Hzbuf, zlen_skipn by lia. lia. }
@@ -789,27 +797,28 @@ Proof.
     exists (mkPbuf meta1 payload1), (Some (h, p, acc)). split; [reflexivity|].
     assert (Habs : pb_abs b = (h, p) :: pb_split ms' (skipn (Z.to_nat (pm_size m)) bytes)).
     { unfold pb_abs. rewrite Hms. cbn [pb_split]. rewrite Ehd. reflexivity. }
-    destruct acc eqn:Eacc.
+    assert (Hacc : acc = f h p) by reflexivity. clearbody acc.
+    destruct acc.
     + (* accepted: the record and its bytes are removed *)
       assert (Hma : ring_abs meta1 = ms') by (unfold ring_abs; rewrite Hvm1; reflexivity).
       destruct (@drop_head b meta1 payload1 m ms' Hinv Hms Him1 Hma Hip1 Hvp1) as (Hi' & Ha').
-      split; [exact Hi'|]. split; [reflexivity|].
+      split; [exact Hi'|]. split; [exact Hacc|].
       exists (pb_split ms' (skipn (Z.to_nat (pm_size m)) bytes)). split; [exact Habs|exact Ha'].
     + (* declined: nothing changes *)
       assert (Hma : ring_abs meta1 = ring_abs (pb_meta b)).
-      { unfold ring_abs at 1. rewrite Hvm1. fold (ring_abs (pb_meta b)). exact (eq_sym Hms). }
+      { unfold ring_abs at 1. rewrite Hvm1. reflexivity. }
       assert (Hpa : ring_abs payload1 = ring_abs (pb_payload b)).
       { unfold ring_abs at 1. rewrite Hvp1. reflexivity. }
       assert (Hrd : r_read payload1 = r_read (pb_payload b)).
       { change (r_read payload1) with (q_pos (ring_view payload1)). rewrite Hvp1.
-        cbn [qs_dequeue_n q_pos]. change (qs_idx (ring_view (pb_payload b)) 0)
+        cbn [qs_dequeue_n q_pos]. change (qs_idx (ring_view (pb_payload b)) k)
           with (pidx (qs_cap (ring_view (pb_payload b))) (r_read (pb_payload b)) 0).
         rewrite <- (cap_eq Hip). apply pidx_0_wf. lia. }
       assert (Hcap : ring_capacity payload1 = ring_capacity (pb_payload b)).
       { rewrite (cap_eq Hip1), Hvp1, qs_dequeue_n_cap, <- (cap_eq Hip); auto.
         unfold qs_len. change (q_q (ring_view (pb_payload b))) with bytes. lia. }
       destruct (@same_views b meta1 payload1 Hinv Him1 Hma Hip1 Hpa Hrd Hcap) as (Hi' & Ha').
-      split; [exact Hi'|]. split; [reflexivity|].
+      split; [exact Hi'|]. split; [exact Hacc|].
       exists (pb_split ms' (skipn (Z.to_nat (pm_size m)) bytes)). split; [exact Habs|].
       rewrite Ha'. exact Habs.
 Qed.
@@ -837,7 +846,7 @@ Proof.
     unfold pb_abs. rewrite Hms. reflexivity.
   - rewrite zlen_cons in *. pose proof (zlen_nonneg ms').
     replace (Z.min (Z.min 1 (1 + zlen ms' - 0)) (ring_capacity (pb_meta b) - r_read (pb_meta b))) with 1 by lia.
-    change (slice (m :: ms') 0 1) with [m].
+    change (slice (m :: ms') 0 1) with [m]. cbv iota.
     destruct (pm_header m) as [h|] eqn:Ehd; [|contradiction].
     destruct (head_fits Hinv Hms) as (Hs0 & Hsl & Hsc & _).
     rewrite sim_get_allocated by (auto; lia). unfold qs_get_allocated, qs_len.
@@ -854,4 +863,216 @@ Proof.
     exists (pb_split ms' (skipn (Z.to_nat (pm_size m)) (ring_abs (pb_payload b)))).
     unfold pb_abs. rewrite Hms. cbn [pb_split]. rewrite Ehd. reflexivity.
 Qed.
+Lemma ring_clear_abs : forall A (r : ring A), ring_inv r ->
+  ring_inv (ring_clear r) /\ ring_abs (ring_clear r) = [] /\ r_len (ring_clear r) = 0.
+Proof.
+  intros A r Hi. destruct (sim_clear Hi) as (Hic & Hv). split; [exact Hic|].
+  split; [|reflexivity]. unfold ring_abs. rewrite Hv. reflexivity.
+Qed.
+
+Theorem pb_reset_spec : forall b, pb_inv b -> pb_inv (pb_reset b) /\ pb_abs (pb_reset b) = [].
+Proof.
+  intros b (Him & Hip & _).
+  destruct (ring_clear_abs Him) as (Him' & Hma & _). destruct (ring_clear_abs Hip) as (Hip' & Hpa & Hl).
+  unfold pb_reset, pb_inv, pb_abs. cbn [pb_meta pb_payload]. rewrite Hma, Hpa, Hl.
+  cbn [pb_layout pb_total pb_pad_ok pb_split]. auto 10.
+Qed.
+
+Lemma ring_new_abs : forall A (store : list A), ring_abs (ring_new store) = [].
+Proof. reflexivity. Qed.
+
+Theorem pb_new_inv : forall mcap pcap, pb_inv (pb_new HT mcap pcap) /\ pb_abs (pb_new HT mcap pcap) = [].
+Proof.
+  intros. unfold pb_new, pb_inv, pb_abs. cbn [pb_meta pb_payload]. rewrite !ring_new_abs.
+  cbn [pb_layout pb_total pb_pad_ok pb_split].
+  split; [|reflexivity]. split; [apply ring_new_inv|]. split; [apply ring_new_inv|]. auto.
+Qed.
+
+(* an empty packet buffer with at least one metadata slot never refuses a packet that fits its
+   payload capacity *)
+Lemma pb_make_room_empty : forall b size, pb_inv b -> pb_abs b = [] ->
+  1 <= pb_packet_capacity b -> 0 <= size <= pb_payload_capacity b ->
+  forall b1, pb_make_room b size <> Ok (b1, true).
+Proof.
+  intros b size Hinv Habs Hmc Hsz b1 Hmr.
+  pose proof (clear_when_empty Hinv) as Hcl. cbv zeta in Hcl.
+  pose proof Hinv as (Him & Hip & Hlay & Htot & Hpad).
+  unfold pb_abs in Habs. pose proof (pb_split_nil_inv _ _ Habs Hpad) as Hms.
+  rewrite Hms in Htot. cbn [pb_total] in Htot.
+  assert (Hemp : ring_is_empty (pb_payload b) = true).
+  { unfold ring_is_empty, ring_len. rewrite <- Htot. reflexivity. }
+  assert (Hnf : ring_is_full (pb_meta b) = false).
+  { unfold ring_is_full, ring_window, ring_len. rewrite (len_abs Him), Hms, zlen_nil.
+    unfold pb_packet_capacity in Hmc. destruct (Z.eqb_spec (ring_capacity (pb_meta b) - 0) 0); [lia|reflexivity]. }
+  unfold pb_make_room, pb_payload_capacity in *.
+  rewrite Hnf in Hmr. destruct (Z.ltb_spec (ring_capacity (pb_payload b)) size); [lia|].
+  cbn [orb] in Hmr. rewrite Hemp in *.
+  destruct Hcl as (_ & _ & _ & Hcap & _ & _ & Hwc & _). destruct (Hwc eq_refl) as (Hw & Hc).
+  rewrite Hw, Hc, Hcap in Hmr.
+  destruct (Z.ltb_spec (ring_capacity (pb_payload b)) size); [lia|]. discriminate.
+Qed.
+
+Theorem pb_empty_accepts : forall b size h, pb_inv b -> pb_abs b = [] ->
+  1 <= pb_packet_capacity b -> 0 <= size <= pb_payload_capacity b ->
+  (forall w, exists b' old, pb_enqueue b size h w = Ok (b', Some old) /\
+     pb_inv b' /\ pb_abs b' = [(h, overlay w old)] /\ zlen old = size) /\
+  (forall f, (forall buf, 0 <= snd (f buf) <= size) ->
+     exists b' k seen, pb_enqueue_with_infallible b size h f = Ok (b', Some (k, seen)) /\
+       pb_inv b' /\ zlen seen = size /\ k = snd (f seen) /\
+       pb_abs b' = [(h, firstn (Z.to_nat k) (overlay (fst (f seen)) seen))]).
+Proof.
+  intros b size h Hinv Habs Hmc Hsz.
+  pose proof (pb_make_room_empty Hinv Habs Hmc Hsz) as Hne. split.
+  - intro w. destruct (@pb_enqueue_spec b size h w Hinv ltac:(lia)) as (b' & res & He & Hiff & Hres).
+    destruct res as [old|].
+    + destruct Hres as (Hz & Hi' & Ha'). exists b', old. rewrite Habs in Ha'. auto.
+    + destruct (proj1 Hiff eq_refl) as (b1 & Hb1). exfalso. eapply Hne; eauto.
+  - intros f Hf.
+    destruct (@pb_enqueue_with_infallible_spec b size h f Hinv ltac:(lia) ltac:(intro; apply Hf))
+      as [(b' & res & He & Hiff & Hres)|(_ & seen & Hzs & Hlt)].
+    + destruct res as [[k seen]|].
+      * destruct Hres as (Hz & Hk & Hi' & pl & Hzpl & Ha' & Hpl).
+        exists b', k, seen. rewrite Habs in Ha'. cbn [app] in Ha'.
+        rewrite Hpl in Ha' by (rewrite Hk; apply Hf). auto 10.
+      * destruct (proj1 Hiff eq_refl) as (b1 & Hb1). exfalso. eapply Hne; eauto.
+    + pose proof (Hf seen). lia.
+Qed.
+
+(* ---------- the abstract queue relation of one operation ---------- *)
+Definition pb_op_ok (op : pb_op HT) : Prop :=
+  match op with
+  | POEnq size _ _ => 0 <= size
+  | POEnqInf max _ _ k => 0 <= max /\ 0 <= k
+  | _ => True
+  end.
+
+Definition pq_rel (l : list (HT * list Z)) (op : pb_op HT)
+  (out : option (list Z * option HT * list Z)) (l' : list (HT * list Z)) : Prop :=
+  match op with
+  | POEnq size h w =>
+      (out = None /\ l' = l) \/
+      (exists old, out = Some ([size], None, old) /\ zlen old = size /\ l' = l ++ [(h, overlay w old)])
+  | POEnqInf max h w k =>
+      (out = None /\ l' = l) \/
+      (exists seen pl, out = Some ([k; max], None, seen) /\ zlen seen = max /\ zlen pl = k /\
+         l' = l ++ [(h, pl)] /\ (k <= max -> pl = firstn (Z.to_nat k) (overlay w seen)))
+  | PODeq =>
+      (out = None /\ l = [] /\ l' = []) \/
+      (exists h p, out = Some ([], Some h, p) /\ l = (h, p) :: l')
+  | PODeqWith acc =>
+      (out = None /\ l = [] /\ l' = []) \/
+      (exists h p rest, out = Some ([b2z acc], Some h, p) /\ l = (h, p) :: rest /\
+         l' = if acc then rest else l)
+  | POPeek =>
+      l' = l /\ ((out = None /\ l = []) \/ (exists h p rest, out = Some ([], Some h, p) /\ l = (h, p) :: rest))
+  | POReset => l' = []
+  end.
+
+Theorem pb_step_refines : forall b op, pb_inv b -> pb_op_ok op ->
+  match pb_step b op with
+  | Ok (b', out) => pb_inv b' /\ pq_rel (pb_abs b) op out (pb_abs b')
+  | Err _ => False
+  | Panic => match op with POEnqInf max _ _ k => max < k | _ => False end
+  end.
+Proof.
+  intros b op Hinv Hok. destruct op; cbn [pb_step pb_op_ok pq_rel] in *.
+  - destruct (@pb_enqueue_spec b size h w Hinv Hok) as (b' & res & He & _ & Hres).
+    rewrite He. cbn [obind]. destruct res as [old|].
+    + destruct Hres as (Hz & Hi' & Ha'). split; [exact Hi'|]. right. exists old. rewrite Hz. auto.
+    + subst b'. split; [exact Hinv|]. left. auto.
+  - destruct Hok as (Hmax & Hk).
+    destruct (@pb_enqueue_with_infallible_spec b max h (fun buf => (overlay w buf, k)) Hinv Hmax
+                ltac:(intro; exact Hk)) as [(b' & res & He & _ & Hres)|(He & seen & Hzs & Hlt)].
+    + rewrite He. cbn [obind]. destruct res as [[k' seen]|].
+      * destruct Hres as (Hz & Hk' & Hi' & pl & Hzpl & Ha' & Hpl). cbn [snd fst] in *. subst k'.
+        rewrite (overlay_same (overlay w seen) seen) in Hpl by (rewrite overlay_length; reflexivity).
+        split; [exact Hi'|]. right. exists seen, pl. rewrite Hz. auto 10.
+      * subst b'. split; [exact Hinv|]. left. auto.
+    + rewrite He. cbn [obind]. cbn [snd] in Hlt. exact Hlt.
+  - destruct (pb_dequeue_spec Hinv) as (b' & res & He & Hi' & Hres). rewrite He. cbn [obind].
+    split; [exact Hi'|]. destruct res as [[h p]|].
+    + right. exists h, p. auto.
+    + left. destruct Hres. auto.
+  - destruct (pb_dequeue_with_spec (fun _ _ => acc) Hinv) as (b' & res & He & Hi' & Hres).
+    rewrite He. cbn [obind]. split; [exact Hi'|]. destruct res as [[[h p] a]|].
+    + destruct Hres as (Ha & rest & Hl & Hl'). subst a. right. exists h, p, rest.
+      split; [reflexivity|]. split; [exact Hl|]. rewrite Hl'. destruct acc; auto.
+    + left. destruct Hres. auto.
+  - destruct (pb_peek_spec Hinv) as (b' & res & He & Hi' & Ha' & Hres). rewrite He. cbn [obind].
+    split; [exact Hi'|]. split; [exact Ha'|]. destruct res as [[h p]|].
+    + right. destruct Hres as (rest & Hl). exists h, p, rest. auto.
+    + left. auto.
+  - destruct (pb_reset_spec Hinv) as (Hi' & Ha'). auto.
+Qed.
+
+(* every run that does not hit the callback-misbehaviour panic keeps the invariant *)
+Theorem pb_run_inv : forall ops b b', pb_inv b -> Forall pb_op_ok ops ->
+  pb_run b ops = Some b' -> pb_inv b'.
+Proof.
+  induction ops as [|op ops IH]; intros b b' Hinv Hok Hrun; cbn [pb_run] in Hrun.
+  - inversion Hrun. subst. exact Hinv.
+  - inversion Hok as [|? ? Hop Hops]; subst.
+    pose proof (@pb_step_refines b op Hinv Hop) as Hs.
+    destruct (pb_step b op) as [[b1 out]|e|]; try discriminate.
+    destruct Hs as (Hi1 & _). eapply IH; eauto.
+Qed.
 End PB.
+
+(* Non-vacuity: a reachable packet buffer whose payload ring has wrapped around with a padding
+   record in the middle (the test_padding script of the crate, with distinguishable bytes) *)
+Definition c14_pb_example_ops : list (pb_op Z) :=
+  [POEnq 6 1 [1; 2; 3; 4; 5; 6]; POEnq 8 2 [11; 12; 13; 14; 15; 16; 17; 18]; PODeq;
+   POEnq 4 3 [21; 22; 23; 24]].
+
+Lemma c14_pb_example :
+  exists b, pb_run (pb_new Z 4 16) c14_pb_example_ops = Some b /\
+    ring_abs (pb_meta b) = [pm_packet 8 2; pm_padding Z 2; pm_packet 4 3] /\
+    r_read (pb_payload b) = 6 /\ r_len (pb_payload b) = 14 /\
+    pb_abs b = [(2, [11; 12; 13; 14; 15; 16; 17; 18]); (3, [21; 22; 23; 24])] /\
+    pb_inv b /\ Forall (@pb_op_ok Z) c14_pb_example_ops.
+Proof.
+  assert (Hok : Forall (@pb_op_ok Z) c14_pb_example_ops).
+  { unfold c14_pb_example_ops. repeat constructor; cbn; lia. }
+  destruct (pb_run (pb_new Z 4 16) c14_pb_example_ops) as [b|] eqn:E.
+  - exists b. split; [reflexivity|].
+    pose proof (@pb_run_inv Z c14_pb_example_ops _ _ (proj1 (pb_new_inv Z 4 16)) Hok E) as Hinv.
+    revert E. vm_compute. intro E. inversion E. subst b.
+    split; [vm_compute; reflexivity|]. split; [vm_compute; reflexivity|].
+    split; [vm_compute; reflexivity|]. split; [vm_compute; reflexivity|].
+    split; [exact Hinv|exact Hok].
+  - exfalso. revert E. vm_compute. discriminate.
+Qed.
+
+Section PBCorollaries.
+Variable HT : Type.
+
+(* a refused enqueue leaves the whole state (a fortiori the queued packets) unchanged *)
+Lemma pb_refused_unchanged : forall (b b' : pbuf HT) size h,
+  pb_inv b -> 0 <= size ->
+  (forall w, pb_enqueue b size h w = Ok (b', None) -> b' = b) /\
+  (forall f, (forall buf, 0 <= snd (f buf)) ->
+     pb_enqueue_with_infallible b size h f = Ok (b', None) -> b' = b).
+Proof.
+  intros b b' size h Hinv Hsz. split.
+  - intros w He. destruct (@pb_enqueue_spec HT b size h w Hinv Hsz) as (b2 & res & He2 & _ & Hres).
+    rewrite He in He2. inversion He2; subst. exact Hres.
+  - intros f Hf He.
+    destruct (@pb_enqueue_with_infallible_spec HT b size h f Hinv Hsz Hf)
+      as [(b2 & res & He2 & _ & Hres)|(He2 & _)].
+    + rewrite He in He2. inversion He2; subst. exact Hres.
+    + rewrite He in He2. discriminate.
+Qed.
+
+(* dequeue_with with a declining callback leaves the queue unchanged *)
+Lemma pb_dequeue_with_decline_unchanged : forall (b b' : pbuf HT) f res,
+  pb_inv b -> (forall h p, f h p = false) ->
+  pb_dequeue_with b f = Ok (b', res) -> pb_inv b' /\ pb_abs b' = pb_abs b.
+Proof.
+  intros b b' f res Hinv Hf He.
+  destruct (pb_dequeue_with_spec f Hinv) as (b2 & res2 & He2 & Hi2 & Hres).
+  rewrite He in He2. inversion He2; subst. split; [exact Hi2|].
+  destruct res2 as [[[h p] acc]|].
+  - destruct Hres as (Hacc & rest & Hl & Hl'). rewrite Hf in Hacc. subst acc. congruence.
+  - destruct Hres as (Hl & Hl'). congruence.
+Qed.
+End PBCorollaries.
